@@ -145,6 +145,8 @@ func partitionerCtor(name string) sarama.PartitionerConstructor {
 		return sarama.NewCustomPartitioner(sarama.WithAbsFirst())
 	case "custom-hashfn":
 		return sarama.NewCustomPartitioner(sarama.WithCustomHashFunction(fnv.New32))
+	case "custom-fallback":
+		return sarama.VerifCustomFallbackPartitioner
 	case "bad":
 		return func(t string) sarama.Partitioner { return &badPartitioner{inner: sarama.NewRoundRobinPartitioner(t)} }
 	}
@@ -855,7 +857,7 @@ func (ps *prodScen) checkPartitionerContract(o *oraclePartitioner, m *sarama.Pro
 		key, _ = m.Key.Encode()
 	}
 	switch o.kind {
-	case "hash", "", "refhash", "customhash", "custom-absfirst", "custom-hashfn":
+	case "hash", "", "refhash", "customhash", "custom-absfirst", "custom-hashfn", "custom-fallback":
 		if m.Key == nil {
 			return
 		}
